@@ -82,6 +82,17 @@ func c05WalkReader(r *pdf.Reader, st *c05Stats) {
 				st.streams++
 				st.maxRaw = max(st.maxRaw, stm.Length())
 				st.timed("DecodeStream", func() {
+					// opened and closed at once, opened and closed after a few bytes ...
+					if rc, err := pdf.DecodeStream(r, nil, stm); err == nil {
+						rc.Close()
+					}
+					if rc, err := pdf.DecodeStream(r, nil, stm); err == nil {
+						var few [7]byte
+						n, _ := rc.Read(few[:])
+						st.produced += int64(n)
+						rc.Close()
+					}
+					// ... and drained
 					rc, err := pdf.DecodeStream(r, nil, stm)
 					if err == nil {
 						n, _ := io.Copy(io.Discard, io.LimitReader(rc, c05StreamCap))
@@ -736,6 +747,15 @@ func c05Crafted(r *kit.Rand) ([]byte, string) {
 		what = "helper-decoder-not-last"
 		jpg := c08JPEG(r, 64+r.Intn(160), 64+r.Intn(160), r.Bool())
 		names := []string{"FlateDecode", "LZWDecode", "ASCIIHexDecode", "ASCII85Decode", "RunLengthDecode", "CCITTFaxDecode", "JBIG2Decode", "DCTDecode"}
+		if r.Chance(1, 3) {
+			// the helper decoder reads from another decoder: [/FlateDecode /DCTDecode]
+			what = "helper-decoder-behind-flate"
+			n := alloc()
+			rev.Actions[n] = kit.XAction{Value: &kit.XStream{Dict: kit.XDict{"Filter": kit.XArray{kit.XName("FlateDecode"), kit.XName("DCTDecode")}},
+				Raw: kit.Deflate(c08JPEG(r, 256+r.Intn(800), 256+r.Intn(800), r.Bool()))}}
+			cat["X"] = kit.XRef{Num: n}
+			break
+		}
 		chain := kit.XArray{kit.XName("DCTDecode")}
 		for i := 1 + r.Intn(2); i > 0; i-- {
 			chain = append(chain, kit.XName(kit.Pick(r, names)))
